@@ -40,7 +40,12 @@ Inductive op : Type :=
 | OReadBytes                (* ReadBytes('\n') *)
 | OReadFull (n : N)         (* io.ReadFull(i, buf) with len(buf) = n *)
 | OCopyN (n : N)            (* io.CopyN(dst, i, n), n >= 0: the bytes handed to dst *)
-| OAlloc (n : N).           (* allocation meter: n bytes requested *)
+| OAlloc (n : N)            (* allocation meter: n bytes requested *)
+(* streamTo only: the caller's io.Writer.  In [run] / [run_chunked] the writer never fails; Model/RespStream.v
+   interprets the same operations with a writer that fails after a budget of bytes. *)
+| OCopyOut (n : N)          (* io.Copy(w, &io.LimitedReader{R: i, N: n}): answers the bytes written *)
+| OWrite (d : bytes)        (* w.Write(d): answers the bytes written *)
+| OWriterErr.               (* the error of the last OCopyOut / OWrite: Ok [] = nil *)
 
 (** every operation answers with a byte string (possibly empty) or an error *)
 Inductive prog (A : Type) : Type :=
@@ -100,6 +105,9 @@ Definition flat_step (B : nat) (o : op) (s : bytes) : result bytes * bytes :=
       if n <=? blen s then (Ok (firstn (N.to_nat n) s), skipn (N.to_nat n) s)
       else (Err eEOF, [])
   | OAlloc _ => (Ok [], s)
+  | OCopyOut n => if n <=? blen s then (Ok (firstn (N.to_nat n) s), skipn (N.to_nat n) s) else (Ok s, [])
+  | OWrite d => (Ok d, s)
+  | OWriterErr => (Ok [], s)
   end.
 
 Definition meter (o : op) (al : N) : N := match o with OAlloc n => al + n | _ => al end.
@@ -174,6 +182,12 @@ Definition chunk_step (B : nat) (o : op) (st : cstate) : result bytes * cstate :
       if n <=? blen buf then (Ok (firstn (N.to_nat n) buf), (skipn (N.to_nat n) buf, chunks))
       else (Err eEOF, ([], chunks))
   | OAlloc _ => (Ok [], (buf, chunks))
+  | OCopyOut n =>
+      let '(buf, chunks) := ensure n buf chunks in
+      if n <=? blen buf then (Ok (firstn (N.to_nat n) buf), (skipn (N.to_nat n) buf, chunks))
+      else (Ok buf, ([], chunks))
+  | OWrite d => (Ok d, (buf, chunks))
+  | OWriterErr => (Ok [], (buf, chunks))
   end.
 
 Fixpoint run_chunked {A : Type} (B : nat) (p : prog A) (st : cstate) (al : N) : A * cstate * N :=
